@@ -101,6 +101,10 @@ const (
 	kInlineArgCall   = "inline-arg-call-twice"
 	kFuncValueOrder  = "func-value-after-args"
 	kTupleValueVar   = "tuple-assign-value-variable"
+	// what a review of the last repairs found: a regression of the function-value repair, byte arrays left out of the
+	// tuple repair
+	kFuncValueMulti = "func-value-multi-value-arg"
+	kTupleByteArray = "tuple-assign-byte-array"
 )
 
 type vinfo struct {
@@ -231,6 +235,8 @@ type gen struct {
 	fvOrder   []string
 	// helpers declared only in the programs that call them (side.go, extraFuncs)
 	tickbFn, tickmFn, tickfFn, tickwFn, ticktFn, tickaFn bool
+	// ... of side3.go: tf2a / tf2b, tickf2, tickw2, tickba
+	tf2Fn, tickf2Fn, tickw2Fn, tickbaFn bool
 }
 
 func (g *gen) mark(s string) { g.feat[s] = true }
